@@ -4,7 +4,8 @@
     Model: ExternalDefs.v (marks, addDependency, the primaryExternalVariables block of analyseModel with its three
     messages, hasExternalVariables, isStateRateBased, isToBeComputedAgain, generateEquationCode and the four generated
     methods as statement sequences) on top of C05's AnalysisDefs.v (mIsExternal, third pass, NLA-unknown pruning,
-    EXTERNAL types).  [analyse_x true] is the code with fixes/C20-voi-external.diff, [analyse_x false] the code before. *)
+    EXTERNAL types).  [analyse_x true] is the code with fixes/C20-voi-external.diff, [analyse_x false] the code before;
+    [sfx] / [sibling_fix]: the generator with / without fixes/C20-nla-sibling-dependencies.diff. *)
 From Coq Require Import List Bool Arith.
 From LC Require Import AnalysisDefs AnalysisSpec ExternalDefs ExternalEmitProofs ExternalMarkProofs ExternalProofs ExternalWitness.
 Import ListNotations.
@@ -216,19 +217,20 @@ Print Assumptions C20_underconstrained_rescued_example.
     (a rank decreasing along every dependency the generator may follow, constant on an NLA system), the code of an
     external equation — the callback — is emitted only after every dependency that the generator wants (not an ODE, not
     a constant, and in computeVariables: still to be generated or to be computed again) has been emitted in that method
-    (itself, or its NLA system through a sibling) or had already been generated by an earlier method. *)
-Theorem C20_callback_after_dependencies_rates : forall r rank rem, acyclic_by r rank -> NoDup rem ->
-  ordered_from r true [] rem [] (eq_positions (fst (rates_body r rem))) = true.
+    (itself, or its NLA system through a sibling) or had already been generated by an earlier method.  Holds for the
+    generator before and after fixes/C20-nla-sibling-dependencies.diff ([sfx]). *)
+Theorem C20_callback_after_dependencies_rates : forall r sfx rank rem, acyclic_by r rank -> NoDup rem ->
+  ordered_from r true [] rem [] (eq_positions (fst (rates_body r sfx rem))) = true.
 Proof. exact ExternalEmitProofs.rates_body_ordered. Qed.
 Print Assumptions C20_callback_after_dependencies_rates.
 
-Theorem C20_callback_after_dependencies_constants : forall r rank rem, acyclic_by r rank -> NoDup rem ->
-  ordered_from r true [] rem [] (eq_positions (fst (computed_constants_body r rem))) = true.
+Theorem C20_callback_after_dependencies_constants : forall r sfx rank rem, acyclic_by r rank -> NoDup rem ->
+  ordered_from r true [] rem [] (eq_positions (fst (computed_constants_body r sfx rem))) = true.
 Proof. exact ExternalEmitProofs.computed_constants_body_ordered. Qed.
 Print Assumptions C20_callback_after_dependencies_constants.
 
-Theorem C20_callback_after_dependencies_variables : forall r rank rem, acyclic_by r rank -> NoDup (all_pos r) ->
-  ordered_from r false rem (all_pos r) [] (eq_positions (variables_body r rem)) = true.
+Theorem C20_callback_after_dependencies_variables : forall r sfx rank rem, acyclic_by r rank -> NoDup (all_pos r) ->
+  ordered_from r false rem (all_pos r) [] (eq_positions (variables_body r sfx rem)) = true.
 Proof. exact ExternalEmitProofs.variables_body_ordered. Qed.
 Print Assumptions C20_callback_after_dependencies_variables.
 
@@ -245,7 +247,7 @@ Example C20_callback_after_dependencies_nonvacuous :
   match result_of (analyse_x true sysA mark_z_dep_y) with
   | Some r =>
       acyclic_by r (fun p => p) /\ NoDup (all_pos r) /\
-      b_vars (method_bodies r) = [SEq 1; SEq 2] /\
+      b_vars (method_bodies r sibling_fix) = [SEq 1; SEq 2] /\
       option_map ae_type (find_aeq r 2) = Some QExternal /\ option_map ae_deps (find_aeq r 2) = Some [1] /\
       option_map ae_type (find_aeq r 1) = Some QAlgebraic
   | None => False
@@ -266,14 +268,32 @@ Theorem C20_callback_cyclic_refuted :
   match result_of (analyse_x true sysC mark_cyclic) with
   | Some r =>
       valid_type (r_type r) = true /\
-      b_vars (method_bodies r) = [SEq 1; SEq 0] /\
+      b_vars (method_bodies r sibling_fix) = [SEq 1; SEq 0] /\
       option_map ae_type (find_aeq r 1) = Some QExternal /\ option_map ae_deps (find_aeq r 1) = Some [0] /\
-      ordered_from r false [] (all_pos r) [] (eq_positions (b_vars (method_bodies r))) = false /\
+      ordered_from r false [] (all_pos r) [] (eq_positions (b_vars (method_bodies r sibling_fix))) = false /\
       forall rank, ~ acyclic_by r rank
   | None => False
   end.
 Proof. exact ExternalWitness.cyclic_refuted. Qed.
 Print Assumptions C20_callback_cyclic_refuted.
+
+(** "All other values still match the equations" needs more than the ordering of the callbacks: before the repair
+    (fixes/C20-nla-sibling-dependencies.diff) generateEquationCode generated only the dependencies of the NLA equation it
+    reached first, so marking a constant on which another equation of the NLA system depends left that dependency (and
+    the callback) un-generated before the findRoot call of computeRates. *)
+Theorem C20_nla_sibling_dependencies_refuted :
+  match result_of (analyse_x true sysS mark_k4) with
+  | Some r =>
+      valid_type (r_type r) = true /\
+      ids_of r (b_rates (method_bodies r false)) = [(Some 1002, QNla); (Some 1004, QOde)] /\
+      ids_of r (b_init (method_bodies r false) ++ b_consts (method_bodies r false)) = [(None, QExternal)] /\
+      ids_of r (b_rates (method_bodies r true)) = [(None, QExternal); (Some 1001, QAlgebraic); (Some 1002, QNla); (Some 1004, QOde)] /\
+      map (fun e => (ae_id e, ae_type e, ae_deps e, ae_sibs e)) (filter (fun e => qtype_eqb (ae_type e) QNla) (r_eqs r)) =
+        [(Some 1002, QNla, [], [2]); (Some 1003, QNla, [0], [1])]
+  | None => False
+  end.
+Proof. exact ExternalWitness.sibling_dependencies_witness. Qed.
+Print Assumptions C20_nla_sibling_dependencies_refuted.
 
 (** the hypothesis NoDup (all_pos r) holds for every result of the analysis *)
 Theorem C20_result_positions_distinct : forall fixed s marks r, xr_outcome (analyse_x fixed s marks) = Done r -> NoDup (all_pos r).
